@@ -11,3 +11,8 @@ Proof.
   destruct (beq_bytes (fst h) k); cbn [existsb andb]; rewrite IH; reflexivity.
 Qed.
 Print Assumptions gen_headers_has_eq.
+
+(** [HeaderIterExt::has_expect_100], translated: some Expect field has the value 100-continue (the flag [has_expect] of
+    [gen_flow_new]). *)
+Theorem gen_has_expect_100_eq l : gen_has_expect_100 l = headers_has l (s2b "expect") (s2b "100-continue").
+Proof. unfold gen_has_expect_100. apply gen_headers_has_eq. Qed.
